@@ -113,7 +113,10 @@ def run_tlc(module, cfg=None, workers=None, timeout=600, env=None, simulate=None
             xmx="8g", deque=False, cwd=SPEC, extra=(), xss=None):
     """Runs TLC on spec/<module>.tla with spec/<cfg>. Raises ToolError on crashes / timeouts."""
     meta = tempfile.mkdtemp(prefix="tlc_", dir=BUILD)
-    jopts = ["-XX:+UseParallelGC", f"-Xmx{xmx}"]
+    # a private java.io.tmpdir: TLC unpacks its standard modules there; nothing is shared with (or cleaned up under) other TLC runs
+    jtmp = os.path.join(meta, "jtmp")
+    os.makedirs(jtmp)
+    jopts = ["-XX:+UseParallelGC", f"-Xmx{xmx}", f"-Djava.io.tmpdir={jtmp}"]
     if xss:
         jopts.append(f"-Xss{xss}")
     if deque:
@@ -202,9 +205,7 @@ def tlc_prints(out, tag):
 
 
 def cleanup_tmp():
-    for d in os.listdir("/tmp"):
-        if d.startswith("SANY") or d.startswith("tlc-"):
-            shutil.rmtree(os.path.join("/tmp", d), ignore_errors=True)
+    """Nothing to do: every TLC run has its own temporary directory under .build (see run_tlc), removed with the run."""
 
 
 # ----------------------------------------------------------------------------------------------
